@@ -318,6 +318,12 @@ fn patch_inputs(max_lines: usize) -> Vec<Vec<u8>> {
         out.push(c);
     };
     seqs::dfs(PATCH_LINES.len(), max_lines, &mut pre, &|s: &[usize]| s.len() >= 2 && s[..s.len() - 1].contains(&5), &mut visit);
+    // marker lines that are not UTF-8 (a Latin-1 author name): the marker is a byte string
+    for bad in [&b"$NetBSD: patch-aa,v 1.1 caf\xe9 $\n"[..], b"\xff $NetBSD$\n", b"+ $NetBSD$ \xc3\n", b"\x80$NetBSD\n"] {
+        out.push([b"a\n".as_slice(), bad, b"b\n"].concat());
+        out.push(bad[..bad.len() - 1].to_vec());
+        out.push([bad, b"kept \xe9\n", bad].concat());
+    }
     for near in NEAR_MISS {
         out.push([b"a\n".as_slice(), near, b"b\n"].concat());
         out.push(near[..near.len() - 1].to_vec());
